@@ -266,20 +266,49 @@ def run(chk, tier):
             continue
         # self-recursion bounded by a strictly decreasing unsigned parameter: every recursive call passes `param - c` (c >= 1, through
         # checked_sub's Some payload or a plain subtraction) in the position of that same parameter, so the depth is at most its first value
-        if len(comp) == 1:
+        roots_ = [c for c in comp if "::{closure" not in F.bodies[c].path]
+        if len(roots_) == 1 and all(F.bodies[c].path.startswith(F.bodies[roots_[0]].path + "::{closure") for c in comp if c != roots_[0]):
             import mirq
-            fb = F.bodies[comp[0]]
+            fb = F.bodies[roots_[0]]
             qf = mirq.BodyQ(fb)
-            sites_ = [t for blk, t in fb.calls() if lib.callee_of(t)[0] == comp[0]]
+            # recursive call sites, with their argument expressions over the parameters of the function itself: a call made inside one of the
+            # function's closures names a captured value `p1.K`, which is operand K of the closure's construction in the function
+            site_args = []
+            for blk, t in fb.calls():
+                if lib.callee_of(t)[0] == roots_[0]:
+                    site_args.append([mirq.expr_of(qf, a_) for a_ in t.get("args", [])])
+            caps = {}
+            for i_, st_ in fb.stmts():
+                rv_ = st_.get("rv", {})
+                if rv_.get("k") == "agg" and rv_.get("ak") == "closure":
+                    cid = rv_.get("def") or rv_.get("closure") or ""
+                    caps[str(cid).split("::")[-1]] = [mirq.expr_of(qf, o_) for o_ in rv_["ops"]]
+            for c in comp:
+                if c == roots_[0]:
+                    continue
+                cb_ = F.bodies[c]
+                qc_ = mirq.BodyQ(cb_)
+                cname = cb_.path.split("::")[-1]
+                for blk, t in cb_.calls():
+                    if lib.callee_of(t)[0] == roots_[0]:
+                        ex_ = []
+                        for a_ in t.get("args", []):
+                            e_ = mirq.expr_of(qc_, a_)
+                            m_ = re.match(r"^\(?\*?p1\)?\.(\d+)$", e_)
+                            if m_ and cname in caps and int(m_.group(1)) < len(caps[cname]):
+                                e_ = caps[cname][int(m_.group(1))]
+                            else:
+                                e_ = "closure:" + e_
+                            ex_.append(e_)
+                        site_args.append(ex_)
             dec = None
             for k_ in range(fb.d.get("arg_count", 0)):
                 if not re.match(r"^(u8|u16|u32|u64|u128|usize)$", fb.local_ty(k_ + 1) or ""):
                     continue
                 rx_ = re.compile(r"^(?:\w+::checked_sub\(p%d, (\d+)\)\.Some\.0|Sub\(p%d, (\d+)\))$" % (k_ + 1, k_ + 1))
-                ok_all = bool(sites_)
-                for t in sites_:
-                    args_ = t.get("args", [])
-                    m_ = rx_.match(mirq.expr_of(qf, args_[k_])) if k_ < len(args_) else None
+                ok_all = bool(site_args)
+                for args_ in site_args:
+                    m_ = rx_.match(args_[k_]) if k_ < len(args_) else None
                     if not m_ or int(m_.group(1) or m_.group(2)) < 1:
                         ok_all = False
                 if ok_all:
